@@ -19,7 +19,7 @@ from . import common
 
 ID = 'C04'
 LEVEL = 'exploration'
-RUNS = {'quick': 12000, 'thorough': 300000}
+RUNS = {'quick': 60000, 'thorough': 400000}
 SIM_TIME_UNIT = 'dense time units'
 RULE = ('seeded generation of (dense-time specification, 1-3 independently sampled piecewise-constant signals of 1..7 '
         'samples, redundant re-samples); non-trivial = reference result has >= 2 segments with a finite value; distinct = '
